@@ -33,6 +33,7 @@ type OpRec struct {
 	HeaderNow     map[string][]string `json:"header_now,omitempty"`
 	HeaderNowErr  string              `json:"header_now_err,omitempty"`
 	HeaderNowSet  bool                `json:"header_now_set,omitempty"`
+	PendingAtEnd  bool                `json:"pending_at_end,omitempty"`
 	Abandoned     bool                `json:"abandoned,omitempty"` // handler returned while this op was in progress
 	CapBlocked    bool                `json:"cap_blocked,omitempty"` // was parked on the carrier's capacity bound at some quiescent point
 	Extra         map[string]string   `json:"extra,omitempty"`
@@ -43,7 +44,9 @@ const (
 	CodeEOF = -2
 )
 
-func (o *OpRec) Pending() bool { return o.End < 0 }
+// Pending: the op had not returned when the simulation took its final snapshot (the harness's own teardown,
+// which cancels every context afterwards so that the bubble can exit, does not count as returning).
+func (o *OpRec) Pending() bool { return o.End < 0 || o.PendingAtEnd }
 func (o *OpRec) OKErr() bool   { return o.Code == CodeNil }
 
 func (o *OpRec) String() string {
@@ -127,6 +130,7 @@ type EventRec struct {
 	Kind  string `json:"kind"`
 	Fired int    `json:"fired"` // step (-1 never)
 	Returned int `json:"returned"` // step at which the call returned (-1 pending)
+	PendingAtEnd bool `json:"pending_at_end,omitempty"` // the call had not returned at the final snapshot
 	FramesDelivered int `json:"frames_delivered"`
 	Note string `json:"note,omitempty"`
 }
